@@ -55,7 +55,11 @@ EXPLANATION = (
     "random.* (random.Random(<seed>) with an argument is allowed); the one listed exception is a uuid whose value only flows into "
     "tracing span ids. get_now of the DBOS adapter must return the result of a @DBOS.step function; _process_tick must pass the adapter's "
     "run_id to the reducer and the retry policy call must receive the seed derived from run_id. "
-    "R2: CFG obligations on wait_for_next_task (exception edges excluded). R3: shape of DBOSRuntime.register. "
+    "R2: CFG obligations on wait_for_next_task (exception edges excluded). R2 and R7 read the function through a protocol view (a copy, for the analysis only): "
+    "`return [await] <private helper of the class / module>(…)` is a tail call, so the helper's body replaces the return with its own returns kept as returns, and a result "
+    "bound to a local on several branches and returned once (`ret = …` … `return ret`) is turned back into one return per branch; a result record held in a local is read through "
+    "its straight-line binding. Every return of that view must be a WaitForNextTaskResult construction the rule can read (otherwise exit 2, never skipped), and the floor counts "
+    "those outcome sites (5 on /repo: nothing to wait for, replay timeout, replay delivery, fresh timeout, fresh delivery). R3: shape of DBOSRuntime.register. "
     "R4: load / record / advance / is_replaying / next_expected_key are interpreted (AST only; the CRUD is a record whose load/insert methods are the observation points, "
     "so it may be reached through any alias) for journals of length 0..3 and every "
     "protocol run of up to 5 further waits, including the non-deterministic fallback: seq_num of every insert equals the number of rows "
@@ -523,13 +527,225 @@ def _fixture(chk) -> None:
         raise AnchorError("C27.fixture: seeded random.Random(seed) was reported as a source")
 
 
+# ======================================================================================= protocol view of wait_for_next_task
+#
+# R2 / R7 are stated over *one* function: every way out of wait_for_next_task is an outcome of the protocol.  Two ordinary
+# refactorings move outcomes out of the syntactic `return WaitForNextTaskResult(…)` statements of that function without
+# changing a single path:
+#   * `return [await] self._helper(…)` — the helper's returns *are* this function's returns (a tail call).  The generic
+#     inliner of sa/inline.py folds a helper only when all its returns are tail returns; a helper that keeps an early
+#     `return` in an `except` handler (the natural shape of the replay wait) is left as a call;
+#   * `ret = <result>` on several branches followed by one `return ret` (what the generic inliner produces, and what a
+#     developer writes by hand), or one result record bound to a local and returned from several places.
+# The view below undoes both, so that the rules — and the floor that counts outcomes — see the same outcome sites
+# whichever way they are written.  It is a view for the analysis only; it never decides anything by itself.  A return the
+# view cannot resolve to a result construction is exit 2 in R2 (never skipped, never counted).
+
+
+def _block_ends(stmts: list[ast.stmt]) -> bool:
+    """Every normal path through the block ends in return / raise."""
+    if not stmts:
+        return False
+    s = stmts[-1]
+    if isinstance(s, (ast.Return, ast.Raise)):
+        return True
+    if isinstance(s, ast.If):
+        return _block_ends(s.body) and _block_ends(s.orelse)
+    if isinstance(s, (ast.With, ast.AsyncWith)):
+        return _block_ends(s.body)
+    if isinstance(s, ast.Try):
+        if _block_ends(s.finalbody):
+            return True
+        return _block_ends(s.orelse if s.orelse else s.body) and all(_block_ends(h.body) for h in s.handlers)
+    return False
+
+
+def _sink_tail(stmts: list[ast.stmt], x: str) -> bool:
+    """In place: an assignment `x = V` that is the last thing the block does before control passes to the statement after
+    it (which is `return x`) becomes `return V`.  Tail positions: last statement of the block; of both arms of a trailing
+    if; of the body of a trailing with; of the body (without else) / else and every handler of a trailing try whose finally
+    does not assign x.  True when something was rewritten."""
+    if not stmts:
+        return False
+    s = stmts[-1]
+    tgt = s.targets[0] if isinstance(s, ast.Assign) and len(s.targets) == 1 else (s.target if isinstance(s, ast.AnnAssign) and s.value is not None else None)
+    if isinstance(tgt, ast.Name) and tgt.id == x:
+        stmts[-1] = ast.copy_location(ast.Return(value=s.value), s)
+        return True
+    if isinstance(s, ast.If):
+        a, b = _sink_tail(s.body, x), _sink_tail(s.orelse, x)
+        return a or b
+    if isinstance(s, (ast.With, ast.AsyncWith)):
+        return _sink_tail(s.body, x)
+    if isinstance(s, ast.Try):
+        from ..inline import _assigned
+        if x in _assigned(list(s.finalbody)):
+            return False
+        done = _sink_tail(s.orelse if s.orelse else s.body, x)
+        for h in s.handlers:
+            done = _sink_tail(h.body, x) or done
+        return done
+    return False
+
+
+def _blocks_of(s: ast.stmt) -> list[list[ast.stmt]]:
+    if isinstance(s, FuncNode + (ast.ClassDef,)):
+        return []
+    out = [b for b in (getattr(s, f, None) for f in ("body", "orelse", "finalbody")) if isinstance(b, list) and b and isinstance(b[0], ast.stmt)]
+    if isinstance(s, ast.Try):
+        out += [h.body for h in s.handlers]
+    if isinstance(s, ast.Match):
+        out += [c.body for c in s.cases]
+    return out
+
+
+def _sink_returns(stmts: list[ast.stmt]) -> int:
+    """In place, every block: `<stmt>; return x` where <stmt> assigns x in tail position → the assignments become returns;
+    the `return x` goes when nothing falls through to it any more."""
+    n = 0
+    for s in stmts:
+        for b in _blocks_of(s):
+            n += _sink_returns(b)
+    i = 0
+    while i + 1 < len(stmts):
+        nxt = stmts[i + 1]
+        if isinstance(nxt, ast.Return) and isinstance(nxt.value, ast.Name):
+            one = [stmts[i]]
+            if _sink_tail(one, nxt.value.id):
+                stmts[i] = one[0]
+                n += 1
+                if _block_ends(one):
+                    del stmts[i + 1]
+        i += 1
+    return n
+
+
+def _tail_helper_body(inl, cls: ast.ClassDef, caller: ast.AST, r: ast.Return, serial: int) -> list[ast.stmt] | None:
+    """`return [await] <helper>(…)` with <helper> a private plain / static method of the same class (through self / cls / the
+    class name) or a private function of the module, awaited iff it is a coroutine function: the statements that replace the
+    return — argument temporaries, then the helper's body with parameters substituted, clashing locals renamed and its own
+    returns kept as returns (a tail call's returns are the caller's returns); `return None` appended when the body can fall
+    off its end."""
+    from ..inline import _assigned, _simple, _Subst, clone
+
+    v = r.value
+    awaited = isinstance(v, ast.Await)
+    call = v.value if awaited else v
+    if not isinstance(call, ast.Call):
+        return None
+    got = inl.helper_for(call, cls)
+    if got is None:
+        return None
+    h, is_method = got
+    if awaited != isinstance(h, ast.AsyncFunctionDef):
+        return None
+    if any(isinstance(a, ast.Starred) for a in call.args) or any(k.arg is None for k in call.keywords):
+        return None
+    params = [a.arg for a in h.args.posonlyargs + h.args.args]
+    if is_method:
+        params = params[1:]
+    kwonly = [a.arg for a in h.args.kwonlyargs]
+    if len(call.args) > len(params):
+        return None
+    bind: dict[str, ast.AST] = dict(zip(params, call.args))
+    for k in call.keywords:
+        if k.arg in bind or k.arg not in params + kwonly:
+            return None
+        bind[k.arg] = k.value
+    defaults = dict(zip(params[len(params) - len(h.args.defaults):], h.args.defaults)) if h.args.defaults else {}
+    defaults.update({p: d for p, d in zip(kwonly, h.args.kw_defaults) if d is not None})
+    helper_assigned = _assigned(list(h.body))
+    pre: list[ast.stmt] = []
+    mapping: dict[str, ast.AST] = {}
+    for p in params + kwonly:
+        arg = bind.get(p, defaults.get(p))
+        if arg is None:
+            return None
+        if _simple(arg) and p not in helper_assigned:
+            mapping[p] = arg
+        else:
+            fresh = f"{p}__t{serial}"
+            pre.append(ast.copy_location(ast.Assign(targets=[ast.Name(id=fresh, ctx=ast.Store())], value=clone(arg)), r))
+            mapping[p] = ast.Name(id=fresh, ctx=ast.Load())
+    clash = (helper_assigned - set(params) - set(kwonly)) & (_assigned(caller) | {a.arg for a in ast.walk(caller) if isinstance(a, ast.arg)})
+    body = [clone(s) for s in h.body]
+    if body and isinstance(body[0], ast.Expr) and isinstance(body[0].value, ast.Constant) and isinstance(body[0].value.value, str):
+        body = body[1:]
+    sub = _Subst(mapping, {nm: f"{nm}__t{serial}" for nm in clash})
+    body = [sub.visit(s) for s in body]
+    if not _block_ends(body):
+        body.append(ast.copy_location(ast.Return(value=ast.Constant(value=None)), r))
+    out = pre + body
+    for s in out:
+        ast.fix_missing_locations(s)
+    return out
+
+
+def _splice_tail_calls(inl, cls: ast.ClassDef, caller: ast.AST, stmts: list[ast.stmt], serial) -> int:
+    n = 0
+    i = 0
+    while i < len(stmts):
+        s = stmts[i]
+        if isinstance(s, ast.Return) and s.value is not None:
+            new = _tail_helper_body(inl, cls, caller, s, next(serial))
+            if new is not None:
+                stmts[i:i + 1] = new
+                n += 1
+                i += len(new)
+                continue
+        for b in _blocks_of(s):
+            n += _splice_tail_calls(inl, cls, caller, b, serial)
+        i += 1
+    return n
+
+
+def protocol_view(m, cls: ast.ClassDef, fn: ast.AST) -> tuple[ast.AST, dict]:
+    """A copy of `fn` (never the tree itself) in which result temporaries are returns again and tail-called private helpers
+    of the class / module are part of the function.  Source positions of the copied statements are kept, so findings point
+    at the real lines (in the helper, when that is where the statement lives)."""
+    from ..index import _set_parents
+    from ..inline import Inliner, clone
+
+    view = clone(fn)
+    inl = Inliner(m, ())
+    serial = itertools.count(1)
+    stats = {"result_temporaries_sunk": 0, "tail_calls_spliced": 0}
+    for _round in range(4):
+        a = _sink_returns(view.body)
+        b = _splice_tail_calls(inl, cls, view, view.body, serial)
+        stats["result_temporaries_sunk"] += a
+        stats["tail_calls_spliced"] += b
+        if not a and not b:
+            break
+    _set_parents(view)
+    view._parent = cls  # type: ignore[attr-defined]  # qualname / enclosing class of the view = those of the function
+    return view, stats
+
+
+def _result_of(r: ast.Return) -> ast.Call | None:
+    """The result record a return hands to the control loop: written at the return, or held in a local whose nearest
+    unconditional straight-line binding is the construction."""
+    v = r.value
+    if isinstance(v, ast.Name):
+        v = reaching_def(v.id, r)
+    if isinstance(v, ast.Call) and last(call_name(v)) == "WaitForNextTaskResult":
+        return v
+    return None
+
+
+def _wait_fn(chk):
+    repo = chk.repo
+    m, ad = repo.cls(f"{RT}:InternalDBOSAdapter")
+    fn, stats = protocol_view(m, ad, need_method(m, ad, "wait_for_next_task"))
+    chk.extra["wait_for_next_task_view"] = stats
+    return m, ad, fn
+
+
 # ======================================================================================= R2: journal pairing
 
 
 def rule_r2(chk) -> None:
-    repo = chk.repo
-    m, ad = repo.cls(f"{RT}:InternalDBOSAdapter")
-    fn = need_method(m, ad, "wait_for_next_task")
+    m, ad, fn = _wait_fn(chk)
     cfg = CFG(fn)
     params = fn_params(fn)
     if len(params) < 3:
@@ -552,12 +768,21 @@ def rule_r2(chk) -> None:
         raise AnchorError(f"C27.R2: journal protocol calls not all present (load {len(load)}, next_expected_key {len(nxt)})")
     chk.floor("C27.R2", "journal protocol call sites (record / advance / load / next_expected_key)", len(rec) + len(adv) + len(load) + len(nxt), 2)
     J = [n for c in rec + adv for n in cfg.nodes_of(enclosing_stmt(c))]
-    rets = [r for r in walk_shallow(fn) if isinstance(r, ast.Return) and isinstance(r.value, ast.Call) and last(call_name(r.value)) == "WaitForNextTaskResult"]
+    # outcome sites: every return of the protocol view (tail-called helpers folded in, result temporaries turned back into returns) must
+    # be a result record the rule can read — one it cannot read is exit 2, so the pairing obligations below cover *all* ways out
+    rets = [r for r in walk_shallow(fn) if isinstance(r, ast.Return)]
+    blind = [r for r in rets if _result_of(r) is None]
+    if blind:
+        raise AnchorError(f"C27.R2: wait_for_next_task returns `{' '.join(ast.unparse(blind[0]).split())[:80]}` — not a WaitForNextTaskResult construction the rule can follow "
+                          "(written at the return, bound to a local, or returned by a private helper of the class called in tail position)")
     chk.floor("C27.R2", "returns of WaitForNextTaskResult", len(rets), 5)
     X = ("exc", "cancel")
     after_j = cfg.reach(J, include_starts=False, labels_excluded=X)
     for r in rets:
-        first = r.value.args[0] if r.value.args else kwarg(r.value, "completed")
+        res = _result_of(r)
+        first = res.args[0] if res.args else kwarg(res, "completed")
+        if first is None:
+            raise AnchorError("C27.R2: a WaitForNextTaskResult is built without its completed-task argument")
         empty = isinstance(first, ast.Constant) and first.value is None
         rn = cfg.nodes_of(r)
         if empty:
@@ -684,7 +909,7 @@ def _start_helper(m, cls: ast.ClassDef, fn: ast.AST, pending: str) -> tuple[ast.
 
 def _slot(cfg: CFG, r: ast.Return) -> str:
     """Semantic slot of a return of wait_for_next_task: which protocol outcome it is (never a line number)."""
-    call = r.value
+    call = _result_of(r)
     first = call.args[0] if call.args else kwarg(call, "completed")
     if isinstance(first, ast.Constant) and first.value is None:
         in_handler = any(isinstance(a, ast.ExceptHandler) for a in _ancestors(r))
@@ -758,8 +983,12 @@ def _journal_calls(fn: ast.AST, jnames: set[str], name: str) -> list[ast.Call]:
 
 
 def _delivers_nothing(r: ast.Return) -> bool:
-    """`return`, `return None`, or a result record whose completed task (first argument / `completed=`) is the constant None."""
+    """`return`, `return None`, or a result record — written at the return or held in a local bound to its construction — whose
+    completed task (first argument / `completed=`) is the constant None."""
     v = r.value
+    if isinstance(v, ast.Name):  # a result held in a local: read the construction it was bound to
+        d = reaching_def(v.id, r)
+        v = d if d is not None else v
     if v is None or (isinstance(v, ast.Constant) and v.value is None):
         return True
     if isinstance(v, ast.Call):
@@ -908,8 +1137,7 @@ def rule_r7(chk) -> None:
     statements `may raise` and those edges leave the function); R7 adds exactly the exception edges that are *caught in
     the function*, which is where a timeout of the replay wait lives."""
     repo = chk.repo
-    m, ad = repo.cls(f"{RT}:InternalDBOSAdapter")
-    fn = need_method(m, ad, "wait_for_next_task")
+    m, ad, fn = _wait_fn(chk)  # protocol view: a tail-called private helper (the extracted replay wait) is part of the function
     cfg = CFG(fn)
     jnames = _journal_locals(fn)
     if not jnames:
@@ -1437,7 +1665,52 @@ _RW_TRY = ("                try:\n                    await asyncio.wait_for(asy
 _RW_ADV = "                journal.advance()\n"
 _RW_RET = "                return WaitForNextTaskResult(target_task, started)\n"
 
+_WF_DEF = "    async def wait_for_next_task(\n"
+_RH_PARAMS = "journal: TaskJournal, task: asyncio.Task[Any], started: list[NamedTask], timeout: float | None"
+_RH_WAIT = "            await asyncio.wait_for(asyncio.shield(task), timeout=timeout)\n"
+_RH_EXC = "        except (asyncio.TimeoutError, TimeoutError):\n"
+_RH_NONE = "            return WaitForNextTaskResult(None, started)\n"
+_RH_EARLY = "        try:\n" + _RH_WAIT + _RH_EXC + _RH_NONE + "        journal.advance()\n        return WaitForNextTaskResult(task, started)\n"
+_RH_CALL = "                return await self._await_expected(journal, target_task, started, timeout)\n"
+
+
+def _replay_helper_twin(name: str, expect: str | None, body: str = _RH_EARLY, *, call: str = _RH_CALL, deco: str = "    @staticmethod\n", params: str = _RH_PARAMS,
+                        extra: list[tuple[str, str]] | None = None) -> Twin:
+    """The replay branch of wait_for_next_task (shielded timed wait / timeout → empty result / advance / deliver) moved into a private helper
+    of the class that the function calls in tail position.  `body` = the helper's statements (its parameter for the task is `task`)."""
+    helper = deco + f"    async def _await_expected({params}) -> WaitForNextTaskResult:\n" + body + "\n"
+    return Twin(name, _RT, *multi(_RT, [(_RW_TRY + _RW_ADV + _RW_RET, call), (_WF_DEF, helper + _WF_DEF)] + (extra or [])), expect)
+
+
+_EMPTY_SHARED = [("        if not tasks:\n            return WaitForNextTaskResult(None, started)\n", "        nothing = WaitForNextTaskResult(None, started)\n        if not tasks:\n            return nothing\n"),
+                 ("        if not done:\n            return WaitForNextTaskResult(None, started)\n", "        if not done:\n            return nothing\n")]
+
 TWINS = [
+    # ---- protocol view (outcome sites behind a tail-called helper / result temporaries): R2, R7 and the floor see the same outcomes
+    _replay_helper_twin("R2/R7 benign: replay wait extracted into a static helper that keeps its early return in the handler, called in tail position", None),
+    _replay_helper_twin("R2/R7 benign: replay wait extracted into a plain method, try/except/else with tail returns (folded by the generic inliner into one result temporary)", None,
+                        "        try:\n" + _RH_WAIT + _RH_EXC + _RH_NONE + "        else:\n            journal.advance()\n            return WaitForNextTaskResult(task, started)\n",
+                        deco="", params="self, " + _RH_PARAMS),
+    _replay_helper_twin("R2/R7 benign: helper result bound to a local and returned on the next line, keyword arguments", None,
+                        call="                outcome = await self._await_expected(journal=journal, task=target_task, started=started, timeout=timeout)\n                return outcome\n"),
+    _replay_helper_twin("R2/R7 benign: the helper builds its result in a local on every branch and returns it once", None,
+                        "        try:\n" + _RH_WAIT + _RH_EXC + "            outcome = WaitForNextTaskResult(None, started)\n        else:\n            journal.advance()\n"
+                        "            outcome = WaitForNextTaskResult(task, started)\n        return outcome\n"),
+    Twin("R2/R7 benign: one empty result record bound to a local and returned from the three places that deliver nothing", _RT,
+         *multi(_RT, _EMPTY_SHARED + [(_RW_TRY, _RW_TRY.replace("return WaitForNextTaskResult(None, started)", "return nothing"))]), None),
+    _replay_helper_twin("R7 extracted helper moves the cursor before its wait (timeout handled in the helper by an empty result)", "C27.R7",
+                        "        journal.advance()\n        try:\n" + _RH_WAIT + _RH_EXC + _RH_NONE + "        return WaitForNextTaskResult(task, started)\n"),
+    _replay_helper_twin("R2 extracted helper delivers the replayed task without advancing", "C27.R2",
+                        "        try:\n" + _RH_WAIT + _RH_EXC + _RH_NONE + "        return WaitForNextTaskResult(task, started)\n"),
+    _replay_helper_twin("R2 extracted helper advances on the timeout path", "C27.R2",
+                        "        try:\n" + _RH_WAIT + _RH_EXC + "            journal.advance()\n" + _RH_NONE + "        journal.advance()\n        return WaitForNextTaskResult(task, started)\n"),
+    _replay_helper_twin("R2 extracted helper is handed whichever task is first, not the one found by the expected key", "C27.R2",
+                        call="                return await self._await_expected(journal, tasks[0], started, timeout)\n"),
+    _replay_helper_twin("R2 extracted helper with a result temporary: the delivering branch forgets the cursor", "C27.R2",
+                        "        try:\n" + _RH_WAIT + _RH_EXC + "            outcome = WaitForNextTaskResult(None, started)\n        else:\n"
+                        "            outcome = WaitForNextTaskResult(task, started)\n        return outcome\n"),
+    Twin("R7 shared empty result record: cursor advanced before the wait, the handler returns the shared record", _RT,
+         *multi(_RT, _EMPTY_SHARED + [(_RW_TRY + _RW_ADV, _RW_ADV + _RW_TRY.replace("return WaitForNextTaskResult(None, started)", "return nothing"))]), "C27.R7"),
     # ---- R6 (range deletes start exactly one past the last consumed row; producer kind ↔ comparison; sibling agreement)
     Twin("R6 orphan purge made inclusive in both back ends (seed form)", _CRUD,
          *multi(_CRUD, [(_PG_OPS, _PG_OPS.replace("> $2", ">= $2")), (_SL_OPS, _SL_OPS.replace("> ?", ">= ?"))]), "C27.R6"),
